@@ -460,6 +460,7 @@ def check(pid, conf, tier, seed, workdir, replay, t0):
         "trusted_base": TRUSTED_COMMON + conf.get("trusted", []),
         "axioms_reported_by_Print_Assumptions": axioms,
         "theorems_closed_under_global_context": closed,
+        "theorems": re.findall(r"^\s*(?:Theorem|Lemma|Corollary)\s+(\w+)", open(os.path.join(COQ, "props", pid + ".v")).read(), re.M),
         "forbidden_vernacular_found": forbidden,
         "coqchk_summary": coqchk_summary,
         "evaluations": meta.get("evaluations", 0),
